@@ -11,6 +11,14 @@ for p in $(./bin/factgen -prop list); do
   ./bin/factgen -repo /repo -prop $p -out lean/Fabio/Generated/$p.lean || echo "setup: factgen $p failed (reported by the check of $p)" >&2
 done
 cp /repo/go.sum harness/go.sum
-(cd harness && go build -tags verif -o ../bin/fvh ./cmd/fvh) || echo "setup: harness build failed (reported by the checks)" >&2
-(cd lean && lake build Fabio fabio_model) || echo "setup: lake build reported errors (reported by the checks)" >&2
+props=$(ls checks | sed 's/\.json$//')
+for p in $props; do
+  pl=$(echo $p | tr A-Z a-z)
+  (cd harness && go build -tags verif -o ../bin/fvh-$pl ./$pl) || echo "setup: harness build for $p failed (reported by its check)" >&2
+done
+mods=""
+for f in lean/Fabio/Props/*.lean; do mods="$mods Fabio.Props.$(basename $f .lean)"; done
+exes=""
+for p in $props; do exes="$exes fabio_model_$(echo $p | tr A-Z a-z)"; done
+(cd lean && lake build Fabio $mods $exes) || echo "setup: lake build reported errors (reported by the checks)" >&2
 echo "setup done"
